@@ -167,6 +167,35 @@ func VerifC16Response() {
 	vf.Reach("done")
 }
 
+// VerifC16Redirect: the status is a symbolic integer, so z3 decides for which
+// statuses the entry carries the redirect URL: every 3xx response with a
+// Location header, no other.
+func VerifC16Redirect() {
+	st := vf.Int("status")
+	vf.Assume(st >= 200 && st <= 410)
+	hasLocation := vf.Choice("location-header", 2) == 1
+	spec := msg.Spec{Wire: nil, ContentType: "text/html"}
+	if hasLocation {
+		spec.Location = "http://example.com/next?to=here"
+	}
+	req, _ := msg.NewRequest(msg.Spec{})
+	res, _ := msg.NewResponse(spec, req)
+	res.StatusCode = st
+	hs, err := NewResponse(res, false)
+	vf.Assert(err == nil, "response-entry-built")
+	if err != nil {
+		return
+	}
+	vf.Assert(hs.Status == st, "status-and-version")
+	if st >= 300 && st < 400 && hasLocation {
+		vf.Assert(hs.RedirectURL == "http://example.com/next?to=here", "redirect-url")
+		vf.Reach("redirect")
+	} else {
+		vf.Assert(hs.RedirectURL == "", "no-redirect-url")
+	}
+	vf.Reach("done")
+}
+
 var alphabet = []byte{'a', '"', '\\', 0x01, 0x7f, 0x80, 0xc3, 0xa9, 0xff, '<', 0xe2, 0x80, 0xa8}
 
 // VerifC16JSON: PostData and Content survive Marshal -> Unmarshal exactly for
